@@ -14,6 +14,10 @@ type c13Date struct {
 	y, m, d int
 }
 
+// c13Fixed: the process zone is any fixed offset instead (zone view Z1) - a violation there needs no real-zone
+// refinement: every offset is a legitimate process zone (POSIX TZ strings)
+var c13Fixed bool
+
 func c13AnyDate(iana bool) c13Date {
 	dg := nondetBytes("date.digits", 8)
 	for i := 0; i < 8; i++ {
@@ -25,6 +29,10 @@ func c13AnyDate(iana bool) c13Date {
 	verifAssume(y >= 1 && verifValidDate(y, m, d))
 	verifAssume(!(y == 1 && m == 1 && d == 1))
 	verifAssume(!(y == 9999 && m == 12 && d == 31)) // the day after must exist in the time model
+	if c13Fixed {
+		verifZone(1)
+		return c13Date{dg: dg, y: y, m: m, d: d}
+	}
 	if iana {
 		verifZoneTable()
 	}
@@ -115,6 +123,18 @@ func c13DateJSON(iana bool) {
 
 func VerifC13_DateJSON()      { c13DateJSON(false) }
 func VerifC13_DateJSON_IANA() { c13DateJSON(true) }
+
+// the four entry points under any fixed offset, all dates 0001-01-02..9999-12-30
+func c13WithFixedOffset(f func(bool)) {
+	c13Fixed = true
+	defer func() { c13Fixed = false }()
+	f(false)
+}
+
+func VerifC13_ToDateFixedOffset()    { c13WithFixedOffset(c13ToDate) }
+func VerifC13_ParseDateFixedOffset() { c13WithFixedOffset(c13ParseDate) }
+func VerifC13_DateWireFixedOffset()  { c13WithFixedOffset(c13DateWire) }
+func VerifC13_DateJSONFixedOffset()  { c13WithFixedOffset(c13DateJSON) }
 
 // SystemDate: BCD YYMMDD, years 2000..2068.
 func c13SystemDate(iana bool) {
